@@ -47,6 +47,7 @@ type ReplayFile struct {
 	Choices  map[string]int    `json:"choices"`
 	Params   map[string]int    `json:"params"`
 	Sched    []schedStep       `json:"sched,omitempty"`
+	Gors     []gorInfo         `json:"goroutines,omitempty"`
 	Readable map[string]string `json:"readable,omitempty"`
 }
 
@@ -344,6 +345,7 @@ func report(eng *Engine, spec *PropSpec, tier string, seed int, start time.Time,
 	var vioSummaries []map[string]interface{}
 	prepared := map[string]bool{}
 	knownPrinted := map[string]bool{}
+	instrumented := false
 	for _, k := range keys {
 		vs := groups[k]
 		pkgDir := harnessPkgDir(eng, k.h)
@@ -362,6 +364,21 @@ func report(eng *Engine, spec *PropSpec, tier string, seed int, start time.Time,
 		for i := 0; i < tries && !ok; i++ {
 			v := vs[i*len(vs)/tries]
 			rf := buildReplay(spec.ID, v.Harness, pkgDir, v.Label, v.Msg, v.Pos, v.Inputs, v.Model, v.Choices, v.Sched, eng.cfg.Params)
+			rf.Gors = v.Gors
+			nonEnv := 0
+			for _, g := range v.Gors {
+				if !g.Env {
+					nonEnv++
+				}
+			}
+			pinned := len(v.Gors) > 1
+			if pinned && !noReplay && !instrumented {
+				// schedule-pinned replay: instrument the scratch copy once
+				if err := instrumentScratch(scratch); err != nil {
+					fmt.Fprintln(os.Stderr, "gosym: instrumentation failed, falling back to unpinned replay:", err)
+				}
+				instrumented = true
+			}
 			os.MkdirAll(replayDir, 0o755)
 			tag := "new"
 			if isKnown {
@@ -396,7 +413,7 @@ func report(eng *Engine, spec *PropSpec, tier string, seed int, start time.Time,
 				}
 			}
 			if !ok {
-				os.Remove(file)
+				os.Rename(file, filepath.Join(replayDir, "unconfirmed_"+filepath.Base(file)))
 			}
 		}
 		sum := map[string]interface{}{"harness": k.h, "label": k.label, "paths": len(vs), "pos": vs[0].Pos, "msg": vs[0].Msg, "confirmed_natively": ok}
